@@ -1376,3 +1376,180 @@ def g3(prog, tier="quick"):
     if bad:
         findings.append({"key": key, "where": "libzwerg/" + nxt[0]["l"], "msg": bad, "detail": None})
     return inst, findings
+
+
+# ---------------------------------------------------------------------------
+# X4: abbreviation words against an abstract abbreviation table
+
+def x4(prog):
+    """`abbrev entry`, `attribute`, `code`, `label`, `?haschildren`, `offset`, `form`, `?AT_x` on abbreviations, interpreted from
+    source against an abstract libdw: a table is a list of abbreviations with byte lengths (reached only through dwarf_getabbrev's
+    offset/length protocol and its end sentinel), an abbreviation a code, tag, children flag, offset and attribute list (reached
+    through dwpp_abbrev_attrcnt / dwarf_getabbrevattr).  Tables of 0-3 abbreviations with 0-3 attributes realise every comparison."""
+    import itertools
+    from cxxobj import CxxEvaluator, Obj, Struct, Sym, OutOfBounds, VarPtr
+    from absint import Thrown
+    inst, findings = [], []
+
+    def one(q):
+        fs = [f for f in prog.funcs.values() if f["q"] == q and f.get("body") is not None]
+        if len(fs) != 1:
+            raise Broken("anchor %s vanished" % q)
+        return fs[0]
+    pe_ctor = one("(anonymous namespace)::producer_entry_abbrev_unit::producer_entry_abbrev_unit")
+    pe_next = one("(anonymous namespace)::producer_entry_abbrev_unit::next")
+    pa_ctor = one("(anonymous namespace)::producer_attribute_abbrev::producer_attribute_abbrev")
+    pa_next = one("(anonymous namespace)::producer_attribute_abbrev::next")
+    w_code, w_label, w_off = one("op_code_abbrev::operate"), one("op_label_abbrev::operate"), one("op_offset_abbrev::operate")
+    w_kids = one("pred_haschildrenp_abbrev::result")
+    wa_off, wa_label, wa_form = one("op_offset_abbrev_attr::operate"), one("op_label_abbrev_attr::operate"), one("op_form_abbrev_attr::operate")
+    p_at, p_at_ctor = one("pred_atname_abbrev::result"), one("pred_atname_abbrev::pred_atname_abbrev")
+
+    class Abbrev:
+        def __init__(self, code, tag, kids, off, attrs):
+            self.code, self.tag, self.kids, self.off, self.attrs = code, tag, kids, off, attrs
+            self.length = 3 + 2 * len(attrs) + 2
+            self.addr = 0x9000 + code * 0x100
+
+        def copy_value(self):
+            return self
+
+    class Table:
+        def __init__(self, abbrevs):
+            self.abbrevs = abbrevs
+            self.addr = 0x8000
+
+        def copy_value(self):
+            return self
+
+    def getabbrev(ev, o, a):
+        cud, off, lenp = a
+        t = cud.table if hasattr(cud, "table") else None
+        if t is None:
+            raise OutOfBounds("dwarf_getabbrev on a CU DIE that was never filled in by dwarf_cu_die")
+        pos = 0
+        for ab in t.abbrevs:
+            if pos == off:
+                if lenp is not None:
+                    lenp.store(ab.length)
+                return ab
+            pos += ab.length
+        if pos == off:
+            return -1              # DWARF_END_ABBREV
+        return None                # an offset that is not the start of an abbreviation: libdw reports an error
+
+    def cu_die(ev, o, a):
+        cu, mem = a[0], a[1]
+        mem.table = cu.table
+        return mem
+
+    def getattr_(ev, o, a):
+        ab, idx, namep, formp, offp = a
+        idx = int(idx)
+        if not (0 <= idx < len(ab.attrs)):
+            return -1
+        n, f_, of = ab.attrs[idx]
+        for p_, v in ((namep, n), (formp, f_), (offp, of)):
+            if p_ is not None:
+                p_.store(v)
+        return 0
+
+    def thrower(ev, o, a):
+        raise Thrown("libdw error")
+    hooks = {
+        "dwarf_cu_die": cu_die, "dwarf_getabbrev": getabbrev, "dwarf_getabbrevattr": getattr_,
+        "dwpp_abbrev_attrcnt": lambda ev, o, a: len(a[0].attrs),
+        "dwpp_abbrev_offset": lambda ev, o, a: a[0].off,
+        "dwarf_getabbrevcode": lambda ev, o, a: a[0].code,
+        "dwarf_getabbrevtag": lambda ev, o, a: a[0].tag,
+        "dwarf_abbrevhaschildren": lambda ev, o, a: 1 if a[0].kids else 0,
+        "throw_libdw": thrower,
+        "dw_offset_dom": lambda ev, o, a: "offset-dom", "dw_tag_dom": lambda ev, o, a: "tag-dom", "dw_attr_dom": lambda ev, o, a: "attr-dom",
+        "dw_form_dom": lambda ev, o, a: "form-dom", "dw_abbrevcode_dom": lambda ev, o, a: "code-dom",
+        "ctor:pred_result": lambda ev, o, a: a[0],
+    }
+    ev = CxxEvaluator(hooks, {}, prog=prog)
+
+    def cst(v):
+        c = getattr(v, "m_cst", None)
+        val = getattr(c, "m_value", None)
+        return (getattr(val, "m_u", val), getattr(c, "m_dom", None), getattr(v, "m_pos", None))
+
+    def pr(r):
+        if isinstance(r, bool):
+            return "yes" if r else "no"
+        if isinstance(r, int):
+            return "yes" if r else "no"
+        return r[1] if isinstance(r, tuple) else r
+    seen = set()
+
+    def report(key, f, msg):
+        if key not in seen:
+            seen.add(key)
+            findings.append({"key": key, "where": "libzwerg/" + f["l"], "msg": msg, "detail": None})
+    n_eval = 0
+    try:
+        for nab in range(0, 4):
+            for counts in itertools.product(range(0, 3), repeat=nab):
+                abbrevs = []
+                off = 0
+                for k, na in enumerate(counts):
+                    ab = Abbrev(k + 1, 0x11 + k, k % 2 == 0, off, [(0x03 + i + k, 0x08 + i, off + 3 + 2 * i) for i in range(na)])
+                    abbrevs.append(ab)
+                    off += ab.length
+                table = Table(abbrevs)
+                unit = Obj("value_abbrev_unit")
+                cu = Obj("Dwarf_CU")
+                cu.table = table
+                unit.m_cu, unit.m_dwctx, unit.m_pos = cu, Sym.of("dwctx"), 0
+                prod = ev.construct(pe_ctor, Obj("(anonymous namespace)::producer_entry_abbrev_unit"), [unit])
+                got = []
+                for _ in range(nab + 2):
+                    v = ev.call(pe_next, prod, [])
+                    n_eval += 1
+                    if v is None:
+                        break
+                    got.append(v)
+                what = "an abbreviation table of %d abbreviations with %s attributes" % (nab, list(counts))
+                seq = [getattr(g, "m_abbrev", None) for g in got]
+                if seq != abbrevs:
+                    report("X4:abbrev-entry", pe_next, "`entry` on %s yields the abbreviations %s; the table holds the codes %s, each exactly once and in order" % (
+                        what, [getattr(x, "code", x) for x in seq], [x.code for x in abbrevs]))
+                    continue
+                if [getattr(g, "m_pos", None) for g in got] != list(range(len(got))):
+                    report("X4:abbrev-entry", pe_next, "`entry` on %s numbers its results %s" % (what, [getattr(g, "m_pos", None) for g in got]))
+                for g, ab in zip(got, abbrevs):
+                    for f_, exp, nm in ((w_code, (ab.code, "code-dom", 0), "code"), (w_label, (ab.tag, "tag-dom", 0), "label"), (w_off, (ab.off, "offset-dom", 0), "offset")):
+                        r = ev.call(f_, Obj("op"), [g.copy_value()])
+                        if cst(r) != exp:
+                            report("X4:" + nm, f_, "`%s` of abbreviation %d yields %s (domain %s); stored is %s" % (nm, ab.code, cst(r)[0], cst(r)[1], exp[0]))
+                    if pr(ev.call(w_kids, Obj("op"), [g])) != ("yes" if ab.kids else "no"):
+                        report("X4:?haschildren", w_kids, "`?haschildren` answers wrongly for an abbreviation whose children flag is %s" % ab.kids)
+                    ap = ev.construct(pa_ctor, Obj("(anonymous namespace)::producer_attribute_abbrev"), [g.copy_value()])
+                    outs = []
+                    for _ in range(len(ab.attrs) + 2):
+                        v = ev.call(pa_next, ap, [])
+                        n_eval += 1
+                        if v is None:
+                            break
+                        outs.append(v)
+                    trip = [(getattr(v, "name", None), getattr(v, "form", None), getattr(v, "offset", None)) for v in outs]
+                    if trip != ab.attrs or [getattr(v, "m_pos", None) for v in outs] != list(range(len(outs))):
+                        report("X4:attribute", pa_next, "`attribute` of an abbreviation with the (name, form, offset) list %s yields %s numbered %s" % (
+                            ab.attrs, trip, [getattr(v, "m_pos", None) for v in outs]))
+                    for v, (n_, f2, o2) in zip(outs, ab.attrs):
+                        for fw, exp, nm in ((wa_label, (n_, "attr-dom", 0), "label"), (wa_form, (f2, "form-dom", 0), "form"), (wa_off, (o2, "offset-dom", 0), "offset")):
+                            r = ev.call(fw, Obj("op"), [v.copy_value()])
+                            if cst(r) != exp:
+                                report("X4:attr-" + nm, fw, "`%s` of an abbreviation attribute yields %s (domain %s); stored is %s" % (nm, cst(r)[0], cst(r)[1], exp[0]))
+                    for code in {a_[0] for a_ in ab.attrs} | {0x03, 0x49}:
+                        pobj = ev.construct(p_at_ctor, Obj("pred_atname_abbrev"), [code])
+                        if pr(ev.call(p_at, pobj, [g])) != ("yes" if any(a_[0] == code for a_ in ab.attrs) else "no"):
+                            report("X4:?AT_x", p_at, "?AT_%#x on an abbreviation with the attributes %s answers wrongly" % (code, [hex(a_[0]) for a_ in ab.attrs]))
+    except OutOfBounds as x:
+        report("X4:abbrev-entry", pe_next, "abbreviation code: %s" % x)
+    except Thrown as x:
+        report("X4:abbrev-entry", pe_next, "abbreviation code raises an error (%s) on a well-formed table" % x)
+    for k in ("abbrev-entry", "code", "label", "offset", "?haschildren", "attribute", "attr-label", "attr-form", "attr-offset", "?AT_x"):
+        inst.append(("X4:" + k, {"evaluations": n_eval}))
+    return inst, findings
